@@ -1,13 +1,142 @@
 import PiqpProofs.Basic
 import PiqpModel.LinAlg
+import Mathlib.Tactic.Ring
+import Mathlib.Tactic.FieldSimp
+import Mathlib.Algebra.BigOperators.Fin
+import Mathlib.Algebra.BigOperators.Ring.Finset
 
 /-!
 # C14 — factorisation and sparse kernels are exact on every pattern (spec level)
+
+`ldlt` / `ldltSolve` are the dense Schur-complement recursions the model uses for every pivot-free LDLᵀ in the code
+(sparse up-looking LDLt, dense LDLTNoPivot blocked/unblocked): in exact arithmetic the factors of a pivot-free LDLᵀ do not
+depend on the loop order, and the exhaustive correspondence (check C14) compares the implementation's `L`, `D` and solves
+with these definitions on every pattern for n ≤ 5.
 -/
 
-namespace Piqp.C14
+set_option linter.unusedSectionVars false
+set_option linter.unusedSimpArgs false
 
-variable {K : Type}
+namespace Piqp.C14
+open Finset
+variable {K : Type} [Field K] [DecidableEq K]
+
+@[simp] theorem consV_zero {n : Nat} (a : K) (v : Vec K n) : (consV a v)[(0 : Fin (n+1))] = a := by
+  simp [consV]
+
+@[simp] theorem consV_succ {n : Nat} (a : K) (v : Vec K n) (i : Fin n) : (consV a v)[i.succ] = v[i] := by
+  simp [consV]
+
+@[simp] theorem colDiv_get {n : Nat} (A : Mat K (n+1) (n+1)) (d : K) (i : Fin n) :
+    (colDiv A d)[i] = A[i.succ][(0 : Fin (n+1))] / d := by
+  simp [colDiv]
+
+@[simp] theorem schur_get {n : Nat} (A : Mat K (n+1) (n+1)) (l : Vec K n) (w : K) (i j : Fin n) :
+    (schur A l w)[i][j] = A[i.succ][j.succ] - l[i] * w * l[j] := by
+  simp [schur, Mat.ofFn]
+
+theorem ldltSolve_correct : ∀ (n : Nat) (A : Mat K n n) (b x : Vec K n),
+    (∀ i j : Fin n, A[i][j] = A[j][i]) → ldltSolve n A b = .ok x →
+    ∀ i : Fin n, ∑ j : Fin n, A[i][j] * x[j] = b[i]
+  | 0, _, _, _, _, _ => fun i => i.elim0
+  | n+1, A, b, x, hsym, h => by
+    unfold ldltSolve at h
+    simp only at h
+    split at h
+    · simp at h
+    · rename_i hd
+      have hd0 : A[(0 : Fin (n+1))][(0 : Fin (n+1))] ≠ 0 := by simpa using hd
+      split at h
+      · simp at h
+      · rename_i x' hx'
+        simp only [Except.ok.injEq] at h
+        subst h
+        have hsymS : ∀ i j : Fin n, (schur A (colDiv A (A[(0 : Fin (n+1))][(0 : Fin (n+1))])) (A[(0 : Fin (n+1))][(0 : Fin (n+1))]))[i][j] =
+            (schur A (colDiv A (A[(0 : Fin (n+1))][(0 : Fin (n+1))])) (A[(0 : Fin (n+1))][(0 : Fin (n+1))]))[j][i] := by
+          intro i j
+          simp only [schur_get, colDiv_get]
+          rw [hsym i.succ j.succ]
+          ring
+        have ih := ldltSolve_correct n _ _ x' hsymS hx'
+        intro i
+        set d0 := A[(0 : Fin (n+1))][(0 : Fin (n+1))] with hd0def
+        set l := colDiv A d0 with hl
+        have hl' : ∀ k : Fin n, A[k.succ][(0 : Fin (n+1))] = l[k] * d0 := by
+          intro k; rw [hl, colDiv_get]; field_simp
+        have hT : sumFin n (fun k => l[k] * x'[k]) = ∑ k : Fin n, l[k] * x'[k] := sumFin_eq_sum n _
+        rw [Fin.sum_univ_succ]
+        simp only [consV_zero, consV_succ]
+        rw [hT]
+        refine Fin.cases ?_ (fun s => ?_) i
+        · -- row 0
+          have : ∀ k : Fin n, A[(0 : Fin (n+1))][k.succ] * x'[k] = d0 * (l[k] * x'[k]) := by
+            intro k; rw [hsym 0 k.succ, hl' k]; ring
+          simp only [this, ← Finset.mul_sum]
+          field_simp
+          ring
+        · -- row s+1
+          have ihs := ih s
+          simp only [schur_get, Vector.getElem_ofFn] at ihs
+          have e1 : ∑ k : Fin n, A[s.succ][k.succ] * x'[k] =
+              (b[s.succ] - l[s] * b[(0 : Fin (n+1))]) + l[s] * d0 * ∑ k : Fin n, l[k] * x'[k] := by
+            have : ∀ k : Fin n, A[s.succ][k.succ] * x'[k] = (A[s.succ][k.succ] - l[s] * d0 * l[k]) * x'[k] + l[s] * d0 * (l[k] * x'[k]) := by
+              intro k; ring
+            simp only [this, Finset.sum_add_distrib, ← Finset.mul_sum]
+            rw [ihs]
+            simp [Fin.getElem_fin, Vector.getElem_ofFn]
+          rw [e1, hl' s]
+          field_simp
+          ring
+
+theorem consL_00 {n : Nat} (d : K) (l : Vec K n) (L' : Mat K n n) : (consL d l L')[(0 : Fin (n+1))][(0 : Fin (n+1))] = d := by
+  simp [consL, Mat.ofFn]
+theorem consL_0s {n : Nat} (d : K) (l : Vec K n) (L' : Mat K n n) (j : Fin n) : (consL d l L')[(0 : Fin (n+1))][j.succ] = 0 := by
+  simp [consL, Mat.ofFn]
+theorem consL_s0 {n : Nat} (d : K) (l : Vec K n) (L' : Mat K n n) (i : Fin n) : (consL d l L')[i.succ][(0 : Fin (n+1))] = l[i] := by
+  simp [consL, Mat.ofFn]
+theorem consL_ss {n : Nat} (d : K) (l : Vec K n) (L' : Mat K n n) (i j : Fin n) : (consL d l L')[i.succ][j.succ] = L'[i][j] := by
+  simp [consL, Mat.ofFn]
+
+/-- `A = L D Lᵀ` for the factors returned by the pivot-free LDLᵀ recursion -/
+theorem ldlt_correct : ∀ (n : Nat) (A L : Mat K n n) (D : Vec K n),
+    (∀ i j : Fin n, A[i][j] = A[j][i]) → ldlt n A = .ok (L, D) →
+    ∀ i j : Fin n, ∑ k : Fin n, L[i][k] * D[k] * L[j][k] = A[i][j]
+  | 0, _, _, _, _, _ => fun i => i.elim0
+  | n+1, A, L, D, hsym, h => by
+    unfold ldlt at h
+    simp only at h
+    split at h
+    · simp at h
+    · rename_i hd
+      have hd0 : A[(0 : Fin (n+1))][(0 : Fin (n+1))] ≠ 0 := by simpa using hd
+      split at h
+      · simp at h
+      · rename_i L' D' hx'
+        simp only [Except.ok.injEq, Prod.mk.injEq] at h
+        obtain ⟨hL, hD⟩ := h
+        subst hL hD
+        set d0 := A[(0 : Fin (n+1))][(0 : Fin (n+1))] with hd0def
+        set l := colDiv A d0 with hl
+        have hl' : ∀ k : Fin n, A[k.succ][(0 : Fin (n+1))] = l[k] * d0 := by
+          intro k; rw [hl, colDiv_get]; field_simp
+        have hsymS : ∀ i j : Fin n, (schur A l d0)[i][j] = (schur A l d0)[j][i] := by
+          intro i j
+          simp only [schur_get]
+          rw [hsym i.succ j.succ]
+          ring
+        have ih := ldlt_correct n _ L' D' hsymS hx'
+        intro i j
+        rw [Fin.sum_univ_succ]
+        refine Fin.cases ?_ (fun s => ?_) i <;> refine Fin.cases ?_ (fun t => ?_) j
+        · simp only [consL_00, consL_0s, consV_zero, consV_succ, zero_mul, mul_zero, Finset.sum_const_zero, add_zero, one_mul, mul_one]
+          rfl
+        · simp only [consL_00, consL_0s, consL_s0, consV_zero, consV_succ, zero_mul, Finset.sum_const_zero, add_zero]
+          rw [hsym 0 t.succ, hl' t]; ring
+        · simp only [consL_00, consL_0s, consL_s0, consV_zero, consV_succ, mul_zero, Finset.sum_const_zero, add_zero]
+          rw [hl' s]; ring
+        · simp only [consL_s0, consL_ss, consV_zero, consV_succ]
+          rw [ih s t, schur_get]
+          ring
 
 /-- `perm` followed by `permt` with the inverse table is the identity whenever the table inverts the permutation -/
 theorem permt_perm_id {n : Nat} (p : Vector (Fin n) n) (b : Vec K n)
@@ -19,5 +148,10 @@ theorem permt_perm_id {n : Nat} (p : Vector (Fin n) n) (b : Vec K n)
   have := hinv ⟨i, hi⟩
   simp only [Fin.getElem_fin] at this
   simp [this]
+
+/-- non-vacuity: a 2×2 quasi-definite matrix factorises and the theorem's hypotheses hold -/
+example : ldlt 2 (#v[#v[(2 : ℚ), 1], #v[1, -3]] : Mat ℚ 2 2) =
+    .ok (#v[#v[1, 0], #v[1/2, 1]], #v[2, -7/2]) := by
+  decide +kernel
 
 end Piqp.C14
